@@ -5,8 +5,10 @@ package iox
 
 import (
 	"bytes"
+
 	"errors"
 	"fmt"
+	"golang.org/x/text/encoding/charmap"
 	"io"
 	"net"
 	"os"
@@ -202,6 +204,19 @@ func Schedules2(r *vh.Rng, in []byte, interior []int, cuts []int) []Schedule {
 			}
 			out = append(out, s)
 		}
+	}
+	// a short first chunk, then empty reads, then the rest: empty reads in the middle of a prolog,
+	// a header, a BOM ... (not only leading ones)
+	for j := 0; j < 3 && n > 1; j++ {
+		first := 1 + r.Pick(minI(n-1, pickInt(r, 3, 12, 40)))
+		s := Schedule{Name: "prefix-empty-rest", Sizes: []int{first}}
+		for e := r.Between(1, 3); e > 0; e-- {
+			s.Sizes = append(s.Sizes, 0)
+		}
+		if r.Chance(0.5) && n-first > 2 {
+			s.Sizes = append(s.Sizes, 1+r.Pick(minI(n-first-1, 20)), 0)
+		}
+		out = append(out, s)
 	}
 	for _, c := range cuts {
 		if c <= 0 || c >= n {
@@ -604,6 +619,13 @@ func Variants() []Variant {
   { "name": "R", "by_header_footer": { "header": "^BEG", "footer": "^END" }, "columns": [
   {"name":"a","start_pos":4,"length":6,"line_pattern":"^BEG"}, {"name":"b","start_pos":3,"length":5,"line_pattern":"^L1"}, {"name":"c","start_pos":4,"length":6,"line_pattern":"^END"} ] } ] }, ` +
 				`"transform_declarations": { "FINAL_OUTPUT": { "object": { "a": { "xpath": "a" }, "b": { "xpath": "b", "type": "int" }, "c": { "xpath": "c", "keep_empty_or_null": true } } } }}`
+			// all columns strings: short / odd lines give visible records instead of a failed int conversion
+			strs := `{"parser_settings": { "version": "omni.2.1", "file_format_type": "fixed-length" }, "file_declaration": { "envelopes": [ { "columns": [
+  {"name":"a","start_pos":1,"length":6}, {"name":"b","start_pos":7,"length":5}, {"name":"c","start_pos":12,"length":6} ] } ] }, ` +
+				`"transform_declarations": { "FINAL_OUTPUT": { "object": { "a": { "xpath": "a", "keep_empty_or_null": true, "no_trim": true }, "b": { "xpath": "b", "keep_empty_or_null": true }, "c": { "xpath": "c", "keep_empty_or_null": true } } } }}`
+			out = append(out, Variant{Name: "fixed-length+strings", FmtIdx: i, Schema: strs, Gen: f.Gen})
+			out = append(out, Variant{Name: "fixed-length+strings+crlf", FmtIdx: i, Schema: strs,
+				Gen: func(r *vh.Rng, n int) []byte { return crlf(f.Gen(r, n)) }})
 			out = append(out, Variant{Name: "fixed-length+headerfooter", FmtIdx: i, Schema: hfo, MultiLine: true, Gen: hfGen, FaultGuard: hfGuard})
 		case "fixedlength2":
 			// the same envelopes through the flatfile hierarchy reader (buffers lines; an unmatched line is "unexpected data")
@@ -761,7 +783,47 @@ func GenInput2(r *vh.Rng, v Variant) Input {
 		}
 		return x
 	}
+	// XML: unusual but legal prologs (version 1.1, standalone, encoding labels); whatever the
+	// decoder makes of them must not depend on the delivery schedule
+	if v.FmtIdx == 6 && r.Chance(0.35) {
+		pro := r.PickStr(`<?xml version="1.1"?>`, `<?xml version='1.1' encoding='utf-8'?>`, `<?xml version="1.0" encoding="UTF-8" standalone="yes"?>`,
+			`<?xml version="1.0" encoding="ISO-8859-1"?>`, `<?xml version="1.1" standalone="no"?>`+"\n", `<?xml version="1.0"?>`+"\r\n<!-- c -->", `<?xml  version = "1.1" ?>`)
+		off := 0
+		if bytes.HasPrefix(in, bom) {
+			off = 3
+		}
+		in = append(append(append([]byte(nil), in[:off]...), pro...), in[off:]...)
+		x := Input{In: in, Kind: size + "/xml-prolog"}
+		for j := 1; j < len(pro) && j < 40; j += 1 + r.Pick(6) {
+			x.Cuts = append(x.Cuts, off+j)
+		}
+		return x
+	}
+	// charmap encodings: align the input so that a two-byte character of the DECODED stream
+	// straddles a multiple of 4096 (the consumers' buffer size), at the very end of the input or in
+	// the middle: a decoder that has to hold back half a character at the end of the caller's buffer
+	if enc := encodingOf(v); enc != nil && (v.FmtIdx == 0 || v.FmtIdx == 1 || v.FmtIdx == 3 || v.FmtIdx == 4) && r.Chance(0.5) {
+		return alignedTail(r, v, enc, in, size)
+	}
+	var cuts []int
 	in, kind := vh.Mutate(r, in)
+	// flat files: a 'special' short line (lone Ctrl-Z, NUL, blank, single character) in the middle
+	pSpecial := 0.25
+	if strings.Contains(v.Name, "+strings") {
+		pSpecial = 0.6
+	}
+	if (v.FmtIdx == 0 || v.FmtIdx == 1 || v.FmtIdx == 3 || v.FmtIdx == 4) && r.Chance(pSpecial) {
+		if le := lineEnds(in); len(le) > 0 {
+			for k, m := 0, r.Between(1, 2); k < m; k++ {
+				p := le[r.Pick(len(le))]
+				sp := r.PickStr("\x1a", "\x1a", "\x00", " ", "x", "\x1a\x1a", "\x1a\r")
+				in = append(append(append([]byte(nil), in[:p]...), (sp+"\n")...), in[p:]...)
+				cuts = append(cuts, p+len(sp)+1, p+len(sp))
+				le = lineEnds(in)
+			}
+			kind += "+special-line"
+		}
+	}
 	if r.Chance(0.05) && len(in) > 0 {
 		p := r.Pick(len(in))
 		long := bytes.Repeat([]byte(r.PickStr("y", "é", "\r", "ab ")), pickInt(r, 4095, 4096, 4097, 8192, 9000))
@@ -785,7 +847,61 @@ func GenInput2(r *vh.Rng, v Variant) Input {
 			kind += "+terminated"
 		}
 	}
-	return Input{In: in, Kind: size + "/" + kind}
+	return Input{In: in, Kind: size + "/" + kind, Cuts: cuts}
+}
+
+func encodingOf(v Variant) *charmap.Charmap {
+	switch {
+	case strings.HasSuffix(v.Name, "+latin1"):
+		return charmap.ISO8859_1
+	case strings.HasSuffix(v.Name, "+cp1252"):
+		return charmap.Windows1252
+	}
+	return nil
+}
+
+// alignedTail pads the input with filler lines so that its decoded length is k*4096+1+delta,
+// delta in -2..2, and its last byte is 0xE9 (two bytes once decoded); optionally more data follows.
+func alignedTail(r *vh.Rng, v Variant, enc *charmap.Charmap, in []byte, size string) Input {
+	declen := func(b []byte) int {
+		d, _ := enc.NewDecoder().Bytes(b)
+		return len(d)
+	}
+	in = bytes.TrimRight(in, "\r\n")
+	final := append(append([]byte(nil), in...), 0xE9)
+	k := pickInt(r, 1, 1, 1, 2)
+	delta := pickInt(r, 0, 0, 0, -1, 1, -2, 2)
+	target := k*4096 + 1 + delta
+	for target-declen(final) < 2 {
+		target += 4096
+	}
+	need := target - declen(final)
+	var filler []byte
+	for need > 0 {
+		n := need
+		if n > 180 {
+			n = 120 + r.Pick(60)
+		}
+		if need-n == 1 {
+			n--
+		}
+		filler = append(filler, bytes.Repeat([]byte("y"), n-1)...)
+		filler = append(filler, '\n')
+		need -= n
+	}
+	p := bytes.IndexByte(final, '\n') + 1
+	out := append(append(append([]byte(nil), final[:p]...), filler...), final[p:]...)
+	kind := size + "/aligned-tail"
+	if r.Chance(0.35) {
+		more := bytes.TrimRight(v.Gen(r, 1), "\n")
+		if i := bytes.LastIndexByte(more, '\n'); i >= 0 {
+			more = more[i+1:]
+		}
+		out = append(append(out, '\n'), more...)
+		out = append(out, '\n')
+		kind = size + "/aligned-middle"
+	}
+	return Input{In: out, Kind: kind}
 }
 
 // ---- transcripts -----------------------------------------------------------------------------
